@@ -635,21 +635,22 @@ func c09TableLayouts(r *run.Run) {
 func c09Table(r *run.Run) {
 	// keys 8 and 9: full-Unicode (32-bit header) subtables under the Macintosh platform that differ in the language only;
 	// the last two: the ISO and Custom platforms (2 and 4)
-	keys := []cmap.Key{{0, 3, 0}, {0, 4, 0}, {1, 0, 0}, {1, 0, 5}, {3, 1, 0}, {3, 10, 0}, {3, 0, 0}, {1, 0, 7}, {1, 0, 9}, {2, 1, 0}, {4, 0, 0}}
+	keys := []cmap.Key{{0, 3, 0}, {0, 4, 0}, {1, 0, 0}, {1, 0, 5}, {3, 1, 0}, {3, 10, 0}, {3, 0, 0}, {1, 0, 7}, {1, 0, 9}, {2, 1, 0}, {4, 0, 0}, {0, 5, 0}}
 	f4 := cmap.Format4{65: 1, 66: 2}
 	f4b := cmap.Format4{65: 3}
 	f12 := cmap.Format12{65: 1, 0x1F600: 2}
 	var f0 cmap.Format0
 	f0.Data[65] = 4
 	r.Explore(explore.Config{Name: "C09.table"},
-		"cmap.Table over all subsets of 11 (platform, encoding, language) keys (platforms 0..4) (incl. 16- and 32-bit subtable headers under Macintosh keys with non-zero languages) with shared / distinct subtables: Decode(Encode(t)) keeps keys, bytes and sharing; GetBest prefers (3,10) > (0,4) > (3,1) > (0,3) > (1,0)",
+		"cmap.Table over all subsets of 12 (platform, encoding, language) keys (platforms 0..4; a format 14 subtable under (0,5); the full-Unicode keys with a format 12 or an undecodable format 13 subtable) (incl. 16- and 32-bit subtable headers under Macintosh keys with non-zero languages) with shared / distinct subtables: Decode(Encode(t)) keeps keys, bytes and sharing; GetBest prefers (3,10) > (0,4) > (3,1) > (0,3) > (1,0) among the subtables it can decode",
 		func(c *explore.Ctx) {
 			t := cmap.Table{}
 			wantMap := map[cmap.Key][3]glyph.ID{} // the glyphs of 'A', 'B' and U+1F600 under each key
+			undecodable := map[cmap.Key]bool{}
 			var desc []string
 			for i, k := range keys {
 				nch := 3
-				if k.PlatformID == 2 || k.PlatformID == 4 || k.PlatformID == 1 {
+				if k.PlatformID == 2 || k.PlatformID == 4 || k.PlatformID == 1 || k.EncodingID == 5 {
 					nch = 2 // one possible subtable only
 				}
 				ch := c.Choose(nch, fmt.Sprintf("key %v", k))
@@ -664,6 +665,15 @@ func c09Table(r *run.Run) {
 				case k.PlatformID == 1:
 					data = f0.Encode(k.Language)
 					wantMap[k] = [3]glyph.ID{4, 0, 0}
+				case k.EncodingID == 5:
+					// Unicode variation sequences (format 14, a 32-bit length directly behind the format): kept as bytes
+					data = []byte{0, 14, 0, 0, 0, 10, 0, 0, 0, 0}
+				case (k.EncodingID == 10 || k.EncodingID == 4) && ch == 2:
+					// a many-to-one subtable (format 13), which the library stores but does not decode:
+					// the choice of the best subtable passes over it
+					data = f12.Encode(0)
+					data[1] = 13
+					undecodable[k] = true
 				case k.EncodingID == 10 || k.EncodingID == 4:
 					data = f12.Encode(0)
 					wantMap[k] = [3]glyph.ID{1, 0, 2}
@@ -733,7 +743,7 @@ func c09Table(r *run.Run) {
 			// best subtable
 			var wantKey *cmap.Key
 			for _, cand := range []cmap.Key{{3, 10, 0}, {0, 4, 0}, {3, 1, 0}, {0, 3, 0}, {1, 0, 0}} {
-				if _, ok := t[cand]; ok {
+				if _, ok := t[cand]; ok && !undecodable[cand] {
 					k := cand
 					wantKey = &k
 					break
